@@ -109,3 +109,49 @@ pub fn eval(case: &J) -> Outcome {
     }
     out
 }
+
+// ------------------------------------------------------------------------------------------------
+// stream `splitlist`: a whole select list without GROUP BY (`Split::from_iter`): the top Map must have one column per item, in the
+// order of the list, each recombining to its item — against `Qrlew.Split.topAll` (the function `split_list_preserves` is about)
+
+pub fn gen_list(rng: &mut Rng, _k: usize, _tier: &str) -> J {
+    let n = 1 + rng.below(4);
+    // aggregate-free items (literals) before, between and after the aggregate items
+    let items: Vec<J> = (0..n).map(|_| if rng.chance(1, 3) { json!(["lit", rng.range(-3, 9)]) } else { gen_a(rng, 1 + rng.below(2) as u32) }).collect();
+    json!({"items": items})
+}
+
+pub fn eval_list(case: &J) -> Outcome {
+    let mut out = Outcome::new();
+    let items: Vec<J> = case["items"].as_array().unwrap().clone();
+    let named: Vec<(String, Expr)> = items.iter().enumerate().map(|(i, it)| (format!("o{i}"), to_expr(it))).collect();
+    let n_aggs = case["items"].to_string().matches("\"agg\"").count();
+    if n_aggs == 0 || items.len() < 2 { out.tag("trivial"); }
+    if items.iter().any(|it| it[0] == "lit") { out.tag("has-literal-item"); }
+    let split = match guarded(|| named.iter().cloned().collect::<Split>()) { Ok(s) => s, Err((loc, msg)) => { out.imp = json!("panic"); out.fail(&format!("C18/splitlist/panic/{}", site(&loc, &msg)), format!("{:?}: {msg}", named.iter().map(|(n, e)| format!("{e} AS {n}")).collect::<Vec<_>>())); return out; } };
+    let top: Map = match split { Split::Map(m) => m, Split::Reduce(r) => r.into_map() };
+    let bottom: Option<&Map> = top.reduce().and_then(|r| r.map());
+    let res_bottom = |name: &str| -> Result<J, String> { match bottom { Some(b) => match b.named_exprs().iter().find(|(n, _)| n == name) { Some((_, e)) => to_json(e, &col_json), None => Err(format!("the Reduce reads `{name}`, which the bottom Map does not produce")) }, None => col_json(name) } };
+    let reduce: Option<&Reduce> = top.reduce();
+    let res_reduce = |name: &str| -> Result<J, String> {
+        match reduce { Some(r) => match r.named_aggregates().iter().find(|(n, _)| n == name) {
+                Some((_, ac)) => { let g = match ac.aggregate() { AggK::Sum => "sum", AggK::Count => "count", AggK::Min => "min", AggK::Max => "max", AggK::First => "first", o => return Err(format!("unexpected aggregate {o}")) };
+                    let arg = res_bottom(ac.column().last().map_err(|e| e.to_string())?)?;
+                    // a literal item travels through the Reduce as first(literal): it is still that literal
+                    if g == "first" { Ok(arg) } else { Ok(json!(["ref", g, arg])) } }
+                None => Err(format!("the top Map reads `{name}`, which the Reduce does not produce")) },
+            None => col_json(name) }
+    };
+    let collided = layer_name_collision(&top);
+    let cols: Result<Vec<J>, String> = top.named_exprs().iter().map(|(n, e)| to_json(e, &res_reduce).map(|j| json!([n, j]))).collect();
+    match cols {
+        Ok(cols) => {
+            let want: Vec<J> = items.iter().enumerate().map(|(i, it)| json!([format!("o{i}"), it])).collect();
+            let back: Vec<J> = cols.iter().map(|c| json!([c[0], inline(&c[1])])).collect();
+            if back != want && !collided { out.fail("C08/splitlist/columns-differ", format!("the select list {:?} is split into a top Map whose columns recombine to {:?}", want.iter().map(|w| w.to_string()).collect::<Vec<_>>(), cols.iter().map(|w| w.to_string()).collect::<Vec<_>>())); }
+            out.imp = if collided { J::Null } else { J::Array(cols) };
+        }
+        Err(e) => { out.imp = json!({"error": e}); if !collided { out.fail("C08/splitlist/layers-inconsistent", format!("{e} (layers: {top})")); } else { out.imp = J::Null; } }
+    }
+    out
+}
